@@ -90,6 +90,7 @@ def main(prop, tier, vseed, replay=None):
     known_lines = set()
     softk = collections.Counter()
     pairs_gen = collections.Counter()
+    oracle_timeouts = 0
     for r in results:
         if 'harness_error' in r:
             harness_errors.append(r['harness_error'][-300:]); continue
@@ -137,7 +138,10 @@ def main(prop, tier, vseed, replay=None):
                        'taint': r['taint'], 'status': r['status']}
             viol_paths.append(runner.write_replay(prop, code, payload))
         for (p, msg) in r['oracle_errors']:
-            harness_errors.append('%s %s seed=%s %s' % (p, r['job']['profile'], r['job']['seed'], msg[-300:]))
+            if msg == 'ORACLE_TIMEOUT':
+                oracle_timeouts += 1     # that run is inconclusive (counted), the check is not
+            else:
+                harness_errors.append('%s %s seed=%s %s' % (p, r['job']['profile'], r['job']['seed'], msg[-300:]))
     open_k = taint.open_findings()
     for kid, n in tainted.items():
         if prop in open_k[kid]['properties']:
@@ -150,6 +154,7 @@ def main(prop, tier, vseed, replay=None):
         if failures: inconclusive = 'shard_failures:' + repr(failures)[:300]
         elif harness_errors: inconclusive = 'harness_errors:' + harness_errors[0][:300]
         elif evaluated == 0: inconclusive = 'no_runs_in_scope'
+        elif oracle_timeouts > max(3, evaluated // 50): inconclusive = 'oracle_timeouts:%d' % oracle_timeouts
         elif total_deciding == 0: inconclusive = 'deciding_monitor_never_evaluated(%s)' % ','.join(deciding)
         elif status['ok'] + status['cap'] == 0: inconclusive = 'no_run_completed'
     if replay:
@@ -164,7 +169,7 @@ def main(prop, tier, vseed, replay=None):
         samples=samples or [r['sample'] for r in results if 'sample' in r][:3] or ['none'],
         events=events, monitor_evaluations=dict(agg), log_entries=dict(kinds), event_types=dict(evtypes),
         distinct_states=len(states), tie_situations=ties_n, simultaneous_individual_ties=ind_ties, tie_resolutions_seen=tie_choices,
-        run_status=dict(status), tainted_runs=dict(tainted), out_of_scope_skipped=skipped,
+        run_status=dict(status), oracle_timeouts=oracle_timeouts, tainted_runs=dict(tainted), out_of_scope_skipped=skipped,
         untainted_crashes=dict(crashes), feature_pairs_hit=top_pairs, feature_pairs_generated=len(pairs_gen),
         feature_pairs_generated_but_monitor_never_fired=sorted('%s+%s' % k for k in pairs_gen if k not in pairs)[:25], inconclusive=bool(inconclusive),
         inconclusive_reason=inconclusive, harness_errors=harness_errors[:5], shard_failures=[repr(x)[:200] for x in failures],
